@@ -99,6 +99,11 @@ func checkRoleTable(c *Ctx, rule, key, text string, got map[string]string, errs 
 }
 
 func runC14(c *Ctx) {
+	wholeSliceToStream(c, c.P, "R4", "transports/obfs2:(*obfs2Conn).Write")
+	if !importing {
+		importObls(c, "C10", runC10, "X10", func(k string) bool { return containsAny(k, "transports/obfs2") })
+		importObls(c, "C12", runC12, "X12", func(k string) bool { return containsAny(k, "common/csrand") })
+	}
 	p := c.P
 	sharedDigestRule(c, p, "R1", "transports/obfs2")
 	spec, err := loadSpec("obfs2.json")
